@@ -9,6 +9,7 @@ import numpy as np
 import torch
 from hypothesis import strategies as st
 
+from vp.core import engine
 from vp.core.engine import Obligation, Property
 from vp.gen import agents as ag
 from vp.gen import histories as hist
@@ -268,8 +269,12 @@ def run_soft_update(case, ctx):
                     want = tau * after_e[k].double() + (1 - tau) * before_t[tl][k].double()
                 else:
                     want = before_t[tl][k].double()
+                # float32 arithmetic in the library: the mixture is exact up to a few ulps of the LARGER operand (parameter
+                # mutations can make weights of magnitude 10-100, where one float32 ulp is already ~1e-5)
+                allowed = 1e-6 + 1e-6 * torch.maximum(after_e[k].double().abs(), before_t[tl][k].double().abs()) if want.numel() else None
+                excess = float(((after_t[k].double() - want).abs() - allowed).max()) if want.numel() else 0.0
                 err = float((after_t[k].double() - want).abs().max()) if want.numel() else 0.0
-                if err > 1e-6:
+                if excess > 0:
                     frozen = torch.equal(after_t[k], before_t[tl][k])
                     kind = "target_frozen" if (frozen and policy_step) else ("moved_off_schedule" if not policy_step else "wrong_mixture")
                     ctx.fail(f"{site}/{kind}",
@@ -395,7 +400,7 @@ def run_stale(case, ctx):
 
 @st.composite
 def spec_strategy(draw, algos):
-    algo = draw(st.sampled_from(algos))
+    algo = draw(st.sampled_from(engine.stratum(algos)))
     fam = draw(st.sampled_from(["vector", "image", "dict", "discrete", "multidiscrete"] if algo in ag.MULTI_OFF
                                else ["vector", "image", "dict", "tuple", "discrete", "multidiscrete", "multibinary"]))
     spec = {"algo": algo, "obs": fam, "obsv": draw(st.integers(0, 2)), "actv": draw(st.integers(0, 2)),
@@ -445,6 +450,48 @@ def stale_strategy(draw, tier):
             "bseed": draw(st.integers(0, 999)), "lseed": draw(st.integers(0, 999))}
 
 
+class _Renamed:
+    """ctx proxy: C18's oracle run under C08 reports its verdicts as C08/rainbow/... signatures."""
+
+    def __init__(self, ctx):
+        self._ctx = ctx
+
+    @staticmethod
+    def _sig(sig):
+        return "C08/rainbow/" + sig.split("/", 1)[1] if sig.startswith("C18/") else sig
+
+    def fail(self, sig, msg, **kw):
+        return self._ctx.fail(self._sig(sig), msg, **kw)
+
+    def check(self, cond, sig, msg="", **kw):
+        return self._ctx.check(cond, self._sig(sig), msg, **kw)
+
+    def abort(self, sig, msg, **kw):
+        return self._ctx.abort(self._sig(sig), msg, **kw)
+
+    def promised(self, sig, **kw):
+        return self._ctx.promised(self._sig(sig), **kw)
+
+    def __getattr__(self, name):
+        return getattr(self._ctx, name)
+
+
+def run_rainbow_loss(case, ctx):
+    """Rainbow's share of the loss clause: what learn() minimises (1-step, n-step, combined, prioritised) is the cross-entropy
+    against the categorical projection of reward + gamma^n (1 - done) z - decided by C18's reference projection (the same
+    oracle; C18 owns the projection's conservation laws, C08 only that THIS target is the one the loss uses, including
+    rewards that push atoms onto / beyond the ends of the support)."""
+    from vp.props import c18
+
+    c18.run_priorities(case, _Renamed(ctx))
+
+
+def rainbow_loss_strategy(tier):
+    from vp.props import c18
+
+    return c18.case_strategy("priorities")(tier)
+
+
 PROPERTY = Property(
     id="C08",
     level="exploration",
@@ -467,6 +514,9 @@ PROPERTY = Property(
         Obligation("loss_differential", run_loss, strategy=loss_strategy,
                    examples={"quick": 50, "thorough": 500}, shards={"quick": 4, "thorough": 16},
                    shrink_budget={"quick": 60, "thorough": 300}),
+        Obligation("rainbow_loss", run_rainbow_loss, strategy=rainbow_loss_strategy,
+                   examples={"quick": 60, "thorough": 600}, shards={"quick": 3, "thorough": 16},
+                   shrink_budget={"quick": 40, "thorough": 300}),
     ],
     assumptions=["batches have exactly agent.batch_size rows and the shapes the real buffers emit",
                  "target weights are observed through parameters, buffers and plain tensor attributes (tensordict to_module)",
